@@ -181,6 +181,50 @@ pub fn run_workload(sub: u64, only_n: Option<u64>, acc: &mut Acc, ctx: &Ctx, _th
             );
         }
     }
+    // The source fails at read j (every j up to the read that would report the end of the file,
+    // with and without fragmentation), line by line and with the whole-file multi-line strategy
+    // (a pattern that can match a line terminator and selects the same lines): the error reaches
+    // the user (diagnostic, status 2), what is printed is a prefix of the uninterrupted output.
+    if only_n.is_none() && !via_stdin && !mmap && sub % 3 == 0 {
+        let ml = rng.chance(1, 2);
+        let mut args: Vec<String> = ["--no-config", "--color=never", "-j1", "-n", "--no-heading", "--with-filename", "--no-mmap"].iter().map(|s| s.to_string()).collect();
+        args.extend([format!("-A{a}"), format!("-B{b}")]);
+        if invert && !ml {
+            args.push("-v".into());
+        }
+        if ml {
+            args.extend(["-U".into(), "foo[^\\n]*\\n?".into()]);
+        } else {
+            args.push("foo".into());
+        }
+        args.push("w/doc.txt".into());
+        let base_plan: Vec<String> = if frag { vec!["read_frag=5".into()] } else { vec![] };
+        let full = ctx.run(&scratch, &RunSpec { args: args.clone(), plan: if base_plan.is_empty() { vec!["noop=1".into()] } else { base_plan.clone() }, ..RunSpec::default() }, 60);
+        acc.evals += 1;
+        digest = digest_out(digest, &full);
+        for j in 0..12 {
+            let mut plan = base_plan.clone();
+            plan.push(format!("read_err=/w/doc.txt:{j}:5"));
+            let spec = RunSpec { args: args.clone(), plan, ..RunSpec::default() };
+            let got = ctx.run(&scratch, &spec, 60);
+            acc.evals += 1;
+            digest = digest_out(digest, &got);
+            if got.fired("read_err") == 0 {
+                break; // the file was read to its end in fewer reads
+            }
+            acc.faults.inc(if ml { "read-EIO-at-read-j(multi-line, whole file)" } else { "read-EIO-at-read-j(line by line)" });
+            let prefix = full.stdout.starts_with(&got.stdout) && (got.stdout.is_empty() || got.stdout.ends_with(b"\n"));
+            if got.code != 2 || !String::from_utf8_lossy(&got.stderr).contains("w/doc.txt") || !prefix {
+                acc.violation(
+                    "C16",
+                    if ml { "read-error-not-surfaced:cli:multi-line" } else { "read-error-not-surfaced:cli" },
+                    format!("read {j} of w/doc.txt failed with EIO: exit {} (expected 2), stderr {:?}, stdout {} bytes {} a prefix of the uninterrupted {} bytes", got.code, show(&got.stderr), got.stdout.len(), if prefix { "is" } else { "IS NOT" }, full.stdout.len()),
+                    sub,
+                    json!({"engine": "procsim", "kind": "c16", "subseed_workload": sub, "n": null, "read_index": j, "run": spec_json(&spec), "input": show(&text), "uninterrupted": full.to_json(), "observed": got.to_json()}),
+                );
+            }
+        }
+    }
     if !matches.is_empty() {
         acc.distinct.insert(fnv(&text) ^ sub);
     }
